@@ -1833,6 +1833,10 @@ func unmarshalMap(info TypeInfo, data []byte, value interface{}) error {
 	if n < 0 {
 		return unmarshalErrorf("negative map size %d", n)
 	}
+	// every entry carries two lengths of p bytes each
+	if n > (len(data)-p)/(2*p) {
+		return unmarshalErrorf("unmarshal map: unexpected eof")
+	}
 	rv.Set(reflect.MakeMapWithSize(t, n))
 	data = data[p:]
 	for i := 0; i < n; i++ {
